@@ -298,7 +298,7 @@ package analysis
 //@ fun deq(a map[string][]string, b map[string][]string) bool = reflect.DeepEqual(a, b)
 // reflect.DeepEqual is reflexive on map[string][]string (no NaN, no func values inside)
 //@ axiom deqRefl: forall a map[string][]string :: deq(a, a)
-//@ fun inReqs(s []map[string][]string, x map[string][]string) bool = exists i in 0..len(s) :: s[i] == x || deq(x, s[i])
+//@ ofun inReqs(s []map[string][]string, x map[string][]string) bool = exists i in 0..len(s) :: s[i] == x || deq(x, s[i])
 
 //@ func mergeSecurityRequirements(primary, m)
 //@   requires primary != nil && m != nil && primary != m
